@@ -54,11 +54,18 @@ def unexpected(clause, exc, detail=''):
                      '%s raised %s: %s %s' % (clause, type(exc).__name__, str(exc)[:200], detail))
 
 
+_GUARD_CALLS = [0]
+
+
 def guarded(fn, case):
     """check_case with a safety net: an exception that is not a Violation but was RAISED INSIDE the library (innermost
     Python frame under REPO/bitcoin) escaped through a call the oracle makes unguarded because it never raises on the
     unchanged tree - that is a behaviour change in property territory, reported as a violation with the library frame as key.
     Exceptions raised by the harness itself stay harness errors (exit 2)."""
+    _GUARD_CALLS[0] += 1
+    if (_GUARD_CALLS[0] % 5 == 0 if _GUARD_CALLS[0] < 600 else _GUARD_CALLS[0] % 300 == 0) and not os.environ.get('VERIF_NO_POISON'):
+        from . import libx
+        libx.poison()             # failed operations on throw-away objects in between: see libx.poison
     try:
         return fn(case)
     except Violation:
